@@ -70,6 +70,34 @@ def _registry():
 
     from .confspec import introspect
 
+    def pool_check():
+        """Snapshots of every held Sid plus the value laws (eq/hash/order/set/dict) over all pairs."""
+        sids = {n: v for n, v in C.pool.items() if n.startswith("p") and isinstance(v, Sid)}
+        names = sorted(sids)
+        laws = []
+        for a in names:
+            for b in names:
+                A, B = sids[a], sids[b]
+                if (A == B) != (A.uri == B.uri):
+                    laws.append(["eq_vs_uri", A.uri, B.uri])
+                if (A != B) == (A == B):
+                    laws.append(["ne_vs_eq", A.uri, B.uri])
+                if A == B and hash(A) != hash(B):
+                    laws.append(["equal_but_hash_differs", A.uri, B.uri])
+                if (A == str(B)) != (str(A) == str(B)) or (str(B) == A) != (str(A) == str(B)):
+                    laws.append(["eq_plain_string", A.uri, str(B)])
+                if (A < B) != (str(A) < str(B)):
+                    laws.append(["lt_vs_string", A.uri, B.uri])
+        vals = list(sids.values())
+        if [str(x) for x in sorted(vals)] != sorted(str(x) for x in vals):
+            laws.append(["sorted_not_by_string"])
+        uris = {x.uri for x in vals}
+        if len(set(vals)) != len(uris):
+            laws.append(["set_size", len(set(vals)), len(uris)])
+        if len({x: 1 for x in vals}) != len(uris):
+            laws.append(["dict_size", len({x: 1 for x in vals}), len(uris)])
+        return {"snaps": {n: snap(v) for n, v in sids.items()}, "laws": laws, "pairs": len(names) ** 2}
+
     reg = {
         "Sid": Sid, "FindInPaths": FindInPaths, "FindInList": FindInList, "FindInAll": FindInAll,
         "FindInConstants": FindInConstants, "GetFromPaths": GetFromPaths, "GetFromAll": GetFromAll,
@@ -81,7 +109,7 @@ def _registry():
         "get_path_config": get_path_config, "get_finder": get_finder, "glob2re": glob2re,
         "apply_query": query_helper.apply_query,
         "eval_repr": eval_repr, "snap": snap, "cmp": cmp, "setlen": setlen, "dictlen": dictlen,
-        "data_path": data_path, "Path": Path, "introspect": introspect,
+        "data_path": data_path, "Path": Path, "introspect": introspect, "pool_check": pool_check,
         "str": str, "repr": repr, "bool": bool, "len": len, "hash": hash, "list": list,
         "sorted": sorted, "dict": dict, "tuple": tuple, "set": set, "next": next, "iter": iter,
         "enc_str": lambda: str, "enc_uri": lambda: (lambda s: s.uri), "enc_none": lambda: (lambda s: None),
